@@ -52,6 +52,7 @@ def generate(seed, tier):
             "weights": weights, "assortative": assortative, "supply": supply, "u": u, "w": w,
             "w_prior": rng.choice([0.0, 0.0, 1.0, 0.5]), "u_prior": rng.choice([0.0, 0.0, 1.0]),
             "explicit_D": rng.random() < 0.7, "sut_seed": rng.randint(0, 10**6),
+            "tolerance": rng.choice([None, None, 1e-3, 0.1, 1.0]), "check_every": rng.choice([1, 2, 3, 10]),
             "n_iter": rng.randint(2, 12 if tier == "quick" else 40)}
 
 
@@ -140,7 +141,10 @@ def _fit(case, n_iter):
         model = HyMMSBM(K=K, u=u_in, w=w_in, assortative=case["assortative"],
                         max_hye_size=D if case["explicit_D"] else None,
                         u_prior=case["u_prior"], w_prior=case["w_prior"], seed=case["sut_seed"])
-        model.fit(h, n_iter=n_iter)
+        if case.get("tolerance") is not None:
+            model.fit(h, n_iter=n_iter, tolerance=case["tolerance"], check_convergence_every=case.get("check_every", 10))
+        else:
+            model.fit(h, n_iter=n_iter)
     return model, u0, w0, u_in, w_in, fac, h
 
 
@@ -158,7 +162,10 @@ def execute(case):
         head = []
         for it in range(1, case["n_iter"] + 1):
             ctx = {"n_iter": it, "supply": case["supply"], "assortative": case["assortative"], "w_prior": case["w_prior"],
-                   "u_prior": case["u_prior"], "explicit_D": case["explicit_D"]}
+                   "u_prior": case["u_prior"], "explicit_D": case["explicit_D"], "tolerance": case.get("tolerance"),
+                   "check_every": case.get("check_every")}
+            if getattr(model if it > 1 else None, "tolerance_reached", False):
+                stats["stopped_by_tolerance"] = stats.get("stopped_by_tolerance", 0) + 1
             try:
                 model, u0, w0, u_in, w_in, fac, h = _fit(case, it)
             except DrawBudgetExceeded as e:
